@@ -147,6 +147,15 @@ def ofIssues (is : List Issue) : Res :=
   | [] => .ok
   | _ => .err is
 
+/-- What a container SEES of its members.  A member in a position typed `any` is only called when the
+    container's code finds an entry point on it: Slice and Array assert `core.ZodSchema`
+    (`types/slice.go:457`, `types/array.go:666`), Map / Set / Record look a `Parse` method up by name
+    (`types/map.go:501`, `types/set.go:470`, `types/record.go:960`), Struct wants `Parse` with two results
+    (`types/struct.go:840`).  A member without that entry point (`skip`) is silently never asked: every value
+    passes.  The harness lists the members of the case that are not callable. -/
+def seen (skip : List Mid) (env : Env) : Env :=
+  fun m v => if skip.contains m then .ok v else env m v
+
 /-! ## Which code is observed: today's or the patched one -/
 
 structure Cfg where
@@ -638,6 +647,13 @@ def run (cfg : Cfg) (env : Env) : Node → V → Res
   | .inter m l r, v => engine m some (validateInter cfg env l r) v
   | .du m disc dmap opts, v => parseDU env m disc dmap opts v
   | .lazy m d t, v => parseLazy cfg env m d t v
+
+/-- The node the constructor really builds from the schema as written: `Array` keeps only a rest schema
+    that asserts to `core.ZodSchema` (`types/array.go:672-678`) — any other rest argument is dropped, the
+    array then has no rest at all (an item that is not a `core.ZodSchema` keeps its position, `seen`). -/
+def built (skip : List Mid) : Node → Node
+  | .array m items rest cs => .array m items (rest.filter (fun r => !skip.contains r)) cs
+  | n => n
 
 /-! ## nesting: schemas refer to their members by id; `parseF` unfolds them with fuel -/
 
